@@ -1,9 +1,9 @@
 package main
 
 import (
-	"regexp"
 	"go/token"
 	"go/types"
+	"regexp"
 	"strings"
 
 	"golang.org/x/tools/go/ssa"
